@@ -399,13 +399,8 @@ func decodeMsg(x *r, v Version, op byte) Msg {
 			}
 			if fl&0x01 != 0 && cc == 0 {
 				// a global table spec with no column: two strings follow (the spec does not forbid it; no
-				// server sends it: Cassandra sets the flag only for a non-empty column list). The library reads
-				// nothing here, so as a SCREEN (lenient mode: "will the library see the structure I see?") the
-				// answer is no: everything after this point would be read at a different offset.
-				if x.lenient {
-					x.fail("global table spec flag with zero columns: read differently by the library")
-					return m
-				}
+				// server sends it: Cassandra sets the flag only for a non-empty column list). The library used to
+				// read nothing here (fixed in /repo, see known_findings.txt)
 				x.str()
 				x.str()
 			} else {
